@@ -636,5 +636,41 @@ Proof.
               st_nt_pending; fail).
   all: try (subst u; econstructor; eauto 6 using st_run, st_gfin_some, st_mb_taken, st_tfin, st_gave_v,
               st_woken_false; fail).
-  all: idtac.
-Admitted.
+  (* the fiber asleep in the slot *)
+  assert (NT : ~ taken_by_any x t).
+  { destruct H1 as [[E _]|E]; [eapply st_nt_full | eapply st_nt_taken]; eauto. }
+  constructor.
+  - eapply st_slot_v; eauto.
+  - destruct (r_wk _ _ _ HR) as [[E F]|[W [W' [_ [_ [s [E [B _]]]]]]]].
+    + now rewrite E, F.
+    + destruct H1 as [[E1 _]|[w E1]]; [congruence|].
+      assert (s = u) by congruence. subst s. now rewrite B, W'.
+  - destruct H1 as [[E W]|E].
+    + destruct (r_mb _ _ _ HR) as [F|[[F _]|[[F _]|[s [F [F' _]]]]]]; try congruence.
+      * left. split; [congruence|].
+        destruct (r_wk _ _ _ HR) as [[Q _]|[_ [_ [_ [_ [s [Q _]]]]]]]; congruence.
+      * right. exists t. congruence.
+    + right. eapply st_taken_any; eauto.
+  - intros W' Nt. destruct (woken (gh x)) eqn:W.
+    + eapply st_mail; eauto.
+    + destruct (r_wk _ _ _ HR) as [[Q _]|[_ [_ [_ [Gv [s [E _]]]]]]]; [congruence|].
+      destruct H1 as [[E1 _]|[w E1]]; [congruence|].
+      assert (s = u) by congruence. subst s. assert (w = t) by congruence. subst w.
+      intros NS. pose proof (st_nostolen _ _ _ HR NS) as NS0.
+      destruct (Nat.eq_dec t tgt) as [Et|Nt'].
+      * destruct (H3 (Gv Et)) as [R [A B]]; [congruence|].
+        exists R. split; [eapply st_gfin_some; eauto|].
+        destruct (r_cell _ _ _ HR) as [[_ C]|[_ [C _]]]; [now rewrite C | rewrite (Gv Et) in C; discriminate].
+      * destruct (g_taken _ HG _ _ E) as [_ S]. destruct NS0 as [S1 S2].
+        destruct (S Nt Nt'); congruence.
+  - intros Gv' E'.
+    destruct (r_cell _ _ _ HR) as [[Gq C]|[Et [Gf [_ [_ [j [R [E [A [B _]]]]]]]]]].
+    + assert (E0 : mb (gh x) = MBTaken u tgt).
+      { destruct (r_mb _ _ _ HR) as [F|[[F _]|[[F F']|[s [F [F' _]]]]]]; try congruence.
+        rewrite Gq in Gv'. destruct (g_gave _ HG Gv') as [s' Q]. congruence. }
+      rewrite Gq in Gv'. destruct (H3 Gv' E0) as [R [A B]]. exists R. split; [eapply st_gfin_some; eauto|].
+      now rewrite C.
+    + pose proof (st_mb_taken _ _ _ HR _ _ E) as E2. assert (j = u) by congruence. subst j.
+      exists R. split; [eapply st_gfin_some; eauto | exact B].
+  - eapply st_sleeper; eauto.
+Qed.
